@@ -11,6 +11,7 @@
   The construction model (`Lumina.Model.EdsCode`) is not mentioned.
 -/
 import Lumina.Model.Nmt
+import Lumina.Spec.C14
 
 namespace Lumina.Spec.C08
 open Lumina.Util
@@ -91,6 +92,23 @@ def malformedOds (ver : Nat) (ods : List Bytes) : Bool :=
   ods.length < 1 || ods.length > maxOdsWidth ver * maxOdsWidth ver ||
   wrongShareSize ods ||
   (List.range (ods.length + 1)).any (fun k => k * k == ods.length && unsortedOds k ods)
+
+/-- the remaining conditions `ExtendedDataSquare::new` imposes on a square of width `w` (not among the property's
+    malformed classes, but needed to say when a square IS accepted): every first-quadrant share starts with a valid
+    namespace (C14: version 0 with 18 leading zero id bytes, or version 255 with 27 leading 0xff id bytes) and does not
+    use share version 1 under an app version below 3 -/
+def sharesSupported (ver w : Nat) (sq : List Bytes) : Bool :=
+  (List.range (w / 2)).all (fun r => (List.range (w / 2)).all (fun c =>
+    let d := sq.getD (r * w + c) []
+    Lumina.Spec.C14.validRaw (d.take 29) && !((d.getD 29 0).toNat / 2 == 1 && ver < 3)))
+
+/-- a VALID extended square: none of the malformed classes, and its first-quadrant shares are supported -/
+def validEds (ver : Nat) (shares : List Bytes) : Bool :=
+  !malformedEds ver shares &&
+  (List.range (shares.length + 1)).all (fun w => w * w != shares.length || sharesSupported ver w shares)
+
+/-- valid inputs are accepted -/
+def specAccepts (valid accepted : Bool) : Bool := !valid || accepted
 
 /-- malformed inputs are rejected -/
 def specRejects (malformed accepted : Bool) : Bool := !(malformed && accepted)
